@@ -794,6 +794,7 @@ func c13Modules(r *vkit.Run) {
 		}
 		c13ModCase(r, x, l, all[l.Name], k/len(c13ModLoaders))
 	})
+	c13NullModules(r, x, all) // enumerated whole-document / member replacements (c13null.go)
 	sort.Strings(notes)
 	if len(notes) > 0 {
 		r.Extra("mod_notes", notes)
